@@ -27,7 +27,10 @@ type globPat struct {
 	Rep    int          `json:"rep"`
 	Exp    [][][]string `json:"exp"`
 	ExpStr [][]string   `json:"expstr"`
-	Obs    *globPatObs  `json:"obs,omitempty"`
+	// the other reading of a trailing backslash (equal to exp / expstr otherwise)
+	Exp2    [][][]string `json:"exp2"`
+	ExpStr2 [][]string   `json:"expstr2"`
+	Obs     *globPatObs  `json:"obs,omitempty"`
 }
 
 type globPatObs struct {
